@@ -303,6 +303,17 @@ netbuf_write_consume(struct netbuf_write * W, size_t len)
 	if (W->failed == 0)
 		WB->datalen += len;
 
+	/*
+	 * If the buffer holds no data (a zero-length write into a newly
+	 * allocated buffer), drop it: there is nothing to send, and
+	 * network_write() must not be asked to write zero bytes.
+	 */
+	if (WB->datalen == 0) {
+		STAILQ_REMOVE(&W->buffers, WB, writebuf, entries);
+		free(WB->buf);
+		free(WB);
+	}
+
 	/* We no longer have space reserved. */
 	W->reserved = 0;
 
